@@ -51,7 +51,8 @@ class RawRule(Rule):
         import numpy as np
         if not hasattr(self, "raw"):
             self.raw = []
-        self.raw.append(tuple(np.rint(np.ma.getdata(n).astype(float) * self.scale).astype(int).ravel().tolist()))
+        from ..dsl import exact
+        self.raw.append(tuple(exact(x, self.scale) for x in np.ma.getdata(n).ravel().tolist()))
         return super().__call__(n, cc, t)
 
 
